@@ -56,7 +56,7 @@ CHECKS = {
          'on 11 engine/storage modes: returned values, later program behaviour and final memory must equal R1 extended with the '
          'documented DeviceMemory semantics. The screen decoder is searched at byte level (every byte string to depth 8/9) and at '
          'command level (all sequences of up to 3/4 commands over ~60 commands, and all mode-switch streams of up to 5/6 commands over 3 modes, 2 palettes and 4 presenters) against a model written from the docstring; the '
-         'two repository screen programs must present identical frames on every mode.',
+         'two repository screen programs and a third one that flips pixels and palette bytes between presents must present identical frames on every mode, incl. hybrid storage whose flat window ends inside the framebuffer / the palette.',
          'Device accesses outside segments, screens larger than 64 pixels and behaviour after a rejected stream are outside the bound.',
          'DESIGN.md section 3 C19'),
  'C06': ('exploration',
@@ -82,7 +82,7 @@ CHECKS = {
          'DESIGN.md section 3 C10'),
  'C02': ('exploration',
          'exhaustive enumeration of primitive-statement sequences x width x version vs a denotational assembler model with a behavioural wflip chain walker',
-         'All sequences of up to 3 statements over 39 shapes (ops over literals, backward/forward labels, $, constants, label+-k*w, jump words and return addresses that do not fit, negative wflip values, unary-minus precedence; '
+         'All sequences of up to 3 statements over 41 shapes (ops over literals, string / char literals with hex escapes, backward/forward labels, $, constants, label+-k*w, jump words and return addresses that do not fit, negative wflip values, unary-minus precedence; '
          'ten wflip forms forcing shared / unshared chains, three-operand wflips with $ in exactly one operand; pad 1/2/4; seven segment placements (incl. one that leaves room for exactly two ops below 2^w); four reserves), depth 4 over a '
          '12-shape core and depth 5 over a 6-shape core (all of depth 4 in thorough), at w=8/16/32/64 and fjm versions: if the '
          'layout is possible the program must assemble and every statement word, label, reserved range and segment must match '
@@ -97,7 +97,7 @@ CHECKS = {
          '?: x operator combination in every position, non-associative comparison chains (must be rejected), 1500 literal forms '
          '(decimal/hex/binary, every printable char, every escape, all 256 \\xHH in both cases, strings up to 3 chars), and every '
          'pair tree x every partition of its three leaves into literal / constant / macro parameter / label / rep iterator '
-         '(value must not depend on the resolution stage; every other rep case sits in a macro whose parameter is spelled like the iterator), negative ternary conditions at every stage, a bare label on either side of every operator, and ~1500 expressions of one program sharing four constants (using a constant under an operator never changes it); each value is observed completely (320 bits + sign) through '
+         '(value must not depend on the resolution stage; every other rep case sits in a macro whose parameter is spelled like the iterator), negative ternary conditions at every stage, a bare label on either side of every operator, and ~1500 expressions of one program sharing four constants (using a constant under an operator never changes it; half of these programs are assembled next to the cached standard library by one process); each value is observed completely (320 bits + sign) through '
          'assembled op words and compared with Python-int evaluation.',
          'R5 holds an independent transcription of the pinned precedence table (the repository documents it only in the grammar). '
          'Expressions with an undefined sub-expression or more than 300 bits are skipped (counted). Workers run under a 4 GiB address-space limit and a CPU limit; a worker that dies is a violation.',
@@ -107,7 +107,7 @@ CHECKS = {
          '16 skeletons (param vs caller label, @ local vs argument, nested argument capture, rep iterator vs names, nested rep, '
          'caller label spelled like an iterator two levels down, arity overloading, < globals and > externs, namespaces with '
          '.rel and ..rel names, $, a local passed down, a label declared through a parameter, rep counts 0/1/3, three call '
-         'levels with equal names, iterator spelled like its own macro parameter, relative names climbing to the root, a rep that does not use its iterator, guarded and mutual recursion, an expansion that emits nothing, parameters in pad / wflip statements, a label declared by several expansions, a rep of count 0 naming an undefined macro / arity) and call chains of 45..898 macros (plain, through rep(1), with zero-count reps at the bottom); warning-free skeletons are also assembled with warnings as errors x every assignment of the pool {a,b,i} to '
+         'levels with equal names, iterator spelled like its own macro parameter, relative names climbing to the root, a rep that does not use its iterator, guarded and mutual recursion, an expansion that emits nothing, parameters in pad / wflip statements, a label declared by several expansions, a rep of count 0 naming an undefined macro / arity) and call chains of 45..898 macros (plain, through rep(1), with zero-count reps at the bottom); a family of 576 programs per width with a constant in / above a namespace and parameters / locals spelled like it or like the built-in w (refused only where the plain spelling is a visible constant; whenever accepted, the inlined image); warning-free skeletons are also assembled with warnings as errors x every assignment of the pool {a,b,i} to '
          'the name slots (about 2 800 well-formed programs, 2 660 with a collision) x w x every 2-way file split: the image '
          'must equal the image of the program inlined by R4 on the AST; every worker process first assembles a program defining '
          'a, b, i as constants and then assembles every program next to the stl as well (no capture across assemblies).',
@@ -131,7 +131,7 @@ CHECKS = {
          'every exact label and every separator-delimited fragment of every name (incl. fragments with ( ) . : { -) to exactly '
          'the addresses of the labels containing it. Histories over one debug file: every sequence of <= 4 (5) operations over save / assemble / '
          'replace / copy / load / handler x five spellings of the path; every read returns the table written last. Exact-label sets mixing existing and unknown labels; an stl program\'s table after '
-         'assemblies under other short-name schemes equals the fresh-process table; expansion-path entries sit at a statement of an expansion they name.',
+         'assemblies under other short-name schemes equals the fresh-process table; expansion-path entries sit at a statement of an expansion they name; source labels spelled like the assembler-internal per-segment names are refused or sit - in the table, the image and the breakpoints - at their statement.',
          'The naming format is deliberately not pinned.',
          'DESIGN.md section 3 C16'),
  'C04': ('model_checking',
@@ -157,7 +157,7 @@ CHECKS = {
          'explicit-state search over pointer targets x previous targets x cell/value alphabets for every pointer macro; all bounded push/pop sequences vs a list model; all bounded call trees',
          '32 hex pointer macro forms (read/write/xor/zero of hexes and bytes, 1- and 2-cell forms, *_and_inc, ptr_inc/dec/add/sub, '
          'ptr_index and read_nth/write_nth with negative indices, ptr_flip, ptr_flip_dbit, ptr_wflip, ptr_wflip_2nd_word, ptr_jump; pointer arithmetic also over boundary pointer values without dereference) at '
-         'w=64/32 and 8 bit-namespace pointer macros at w=64/32/16, over all 64 ordered (previous target, target) pairs of an 8-cell '
+         'w=64/32 (plus ptr_flip through the address of a data bit, and every ordered PAIR of the 33 forms back to back: the second starts with the shared pointer registers as the first left them) and 8 bit-namespace pointer macros at w=64/32/16, over all 64 ordered (previous target, target) pairs of an 8-cell '
          'fenced buffer x cell and value alphabets (all 256 values of the pointed cell on a short target chain; the buffer straddles a 0x10000-bit carry boundary of pointer arithmetic): exactly the pointed cell / destination changes (whole-image frame invariant, guard '
          'cells, every other variable) and to_flip / to_jump mirror their _var copies. Stack (declared capacity = the deepest explored depth, so it gets exactly full): every sequence of <= 4 (6 thorough) '
          'operations over push/pop of hexes, bytes, 3- and 4-vectors and sp_inc/dec within depth 0..6 against a Python list (popped '
@@ -190,8 +190,8 @@ CHECKS = {
          'explicit-state search over assemble-call histories in one process (forked children of a never-assembled parent); probe bytes vs a fresh interpreter process',
          'Every history of depth <= 2 over 28 assemble actions (thorough: also depth 3 over a 9-action core) (stl programs at two widths, no-stl, werror, a parse failure '
          'inside nested namespaces, a lexing error, an unknown macro after the cache was filled, recursion overflow with depth 5, depths '
-         '2000 and 4000, programs defining top-level constants, programs behind a 1- or 2-file stl prefix with one to three user files, a 60 000-label program, a warning-raising program at a fixed path with and without warnings-as-errors, a rep-heavy program, the stl under other short names, a reduced stl built by trimming the list the public get_stl_paths() returned, another user short name, another directory) followed by seventeen '
-         'probe assemblies (different widths, versions, werror, programs using the constants\' names as labels, expressions nested 400 / 700 deep, a 600-term expression inside a macro with the default and a raised depth (F24)), rotated so that every probe directly follows every last action: the .fjm and .fjd bytes of every probe must equal those of a brand-new '
+         '2000 and 4000, programs defining top-level constants, programs behind a 1- or 2-file stl prefix with one to three user files, a 60 000-label program, a warning-raising program at a fixed path with and without warnings-as-errors, a rep-heavy program, the stl under other short names, a reduced stl built by trimming the list the public get_stl_paths() returned, another user short name, another directory) followed by nineteen '
+         'probe assemblies (different widths, versions, werror, programs using the constants\' names as labels, expressions nested 400 / 700 deep, a 600-term expression inside a macro with the default and a raised depth (F24), an invalid file list whose user file carries an stl short name), rotated so that every probe directly follows every last action: the .fjm and .fjd bytes of every probe must equal those of a brand-new '
          'interpreter process (two reference processes with different hash seeds and directories must agree as well).',
          'Each history runs in a forked child of a parent that imported flipjump but never assembled. The process-global state key is reported, not used to merge histories.',
          'DESIGN.md section 3 C13'),
@@ -201,7 +201,7 @@ CHECKS = {
          'garbage, continue, the three continue-all spellings incl. mixed case, reads of words / unaligned / unmapped addresses / hex, bit '
          'and byte variables over a data segment with distinctive bits, help, unknown commands, empty lines, quit; running out = EOF) x '
          'every breakpoint subset of size <= 2 of the visited addresses + a never-visited one x 12 programs per width, through '
-         'fjm_run.run(breakpoint_handler=...), plus sessions whose breakpoints are asked for by label (all subsets of 3 existing + 3 unknown labels) and by substring sets (incl. regular-expression metacharacters) - twice on one debug-file path with other addresses -, reads of the last word of the address space (a segment ends exactly at 2^w), and reads of the word the program will fault on: pause list (address, ops executed), values shown by reads, quit => keyboard-interrupt at '
+         'fjm_run.run(breakpoint_handler=...), plus sessions whose breakpoints are asked for by label (all subsets of 3 existing + 3 unknown labels) and by substring sets (incl. regular-expression metacharacters) - twice on one debug-file path with other addresses -, sessions through the public wrapper flipjump.debug() (addresses / labels / substrings and every mix, also with no debug file and with an empty table), reads of the last word of the address space (a segment ends exactly at 2^w), and reads of the word the program will fault on: pause list (address, ops executed), values shown by reads, quit => keyboard-interrupt at '
          'the pause op count, otherwise output / IO calls / cause / op count / final memory equal the undebugged reference run.',
          'Messages are parsed only for addresses, op counts and values. Label / substring breakpoints are resolved in C16.',
          'DESIGN.md section 3 C15'),
@@ -211,7 +211,7 @@ CHECKS = {
          'thorough adds w=16, --werror and all combinations) through `fj files -o`, `fj --asm -o` + `fj --run` (subprocesses of '
          'python -m flipjump.flipjump_cli on the working tree) and the Python API with the same explicit options: the three .fjm '
          '(and .fjd) files must be byte-identical, header width/version as requested or defaulted, program output and termination '
-         'identical (a warning-raising program x --werror x -s x width x version; six spellings of one source path incl. a symlinked directory + `..`; every history of <= 3 API runs on the default terminal device vs fresh fj processes; the API routes run in a process where a caller has taken flipjump.get_stl_paths() and appended to / truncated / reversed its list); defaults observed directly: temporary file of the one-step flow is width 64 / version 1, with -o version 3, stl '
+         'identical (a warning-raising program x --werror x -s x width x version; six spellings of one source path incl. a symlinked directory + `..`; every history of <= 3 API runs on the default terminal device vs fresh fj processes; the API routes run in a process where a caller has taken flipjump.get_stl_paths() and appended to / truncated / reversed its list); the verdicts of run_test_output / assemble_and_run_test_output over 4 endings x 7 expected causes x right / wrong output x raise / return; defaults observed directly: temporary file of the one-step flow is width 64 / version 1, with -o version 3, stl '
          'included unless --no_stl.',
          'The one-step temporary file is observed by wrapping flipjump_cli.TemporaryDirectory in-process.',
          'DESIGN.md section 3 C20'),
